@@ -20,8 +20,10 @@ func checkC08(c *Ctx) {
 	c.Rule("C08/R5", "field growth: the field count and the row buffer grow together, and adding a field resets the flattened-field cache")
 	c.Rule("C08/R6", "sub-name key patterns (lookup prefix and exclusion patterns) are the key followed by '=', so a key never matches a longer key it is a prefix of")
 	c.Rule("C08/R7", "a key returns for each field the value at that field's index, or the empty string when the row was trimmed before it")
+	c.Rule("C08/R8", "what a projection remembers about a key depends on the key alone: every per-projection cache filled while projecting (the .config key-to-field table) is keyed by every per-result input of the cached decision — whether a key belongs to .config is a property of the result (file vs internal configuration), so it must not be cached per key")
 
 	p := mustLoad(c, loadOpts{}, "./benchproc", "./benchproc/internal/parse", "./benchfmt")
+	c08Memo(c, p)
 	c08Intern(c, p)
 	c08Late(c, p)
 	c08Residue(c, p)
@@ -449,4 +451,24 @@ func c08Get(c *Ctx, p *Prog) {
 		}
 	}
 	c.Check(okIdx && okEmpty, R, "Key.Get", p.pos(fn.Pos()), "returns vals[field.idx], or \"\" when the row was trimmed before that index", "Key.Get does not return the value at the field's index (with \"\" for trimmed rows)")
+}
+
+func c08Memo(c *Ctx, p *Prog) {
+	const R = "C08/R8"
+	mp := p.Method("benchproc", "ProjectionParser", "makeProjection")
+	if mp == nil {
+		c.Undecided(R, "anchor:makeProjection", "", "not found")
+		return
+	}
+	var fns []*ssa.Function
+	var addAnon func(f *ssa.Function)
+	addAnon = func(f *ssa.Function) {
+		fns = append(fns, f)
+		for _, a := range f.AnonFuncs {
+			addAnon(a)
+		}
+	}
+	addAnon(mp)
+	n := checkMemoSites(c, p, R, findMemoSites(fns), nil)
+	c.Floor(R, "cache stores in the projection closures", n, 1)
 }
